@@ -125,10 +125,13 @@ def lockCompat (a b : Access) : Bool := a.locks.any (fun l => b.locks.contains l
 def sameSingle (a b : Access) : Bool := a.single && b.single && a.thread == b.thread
 
 /-- pairs that are NOT ordered by a lock but by something the lockset theorem takes as a
-    hypothesis: publication of a fresh object, atomics, fork order, a named channel order -/
+    hypothesis: publication of a fresh object (unless the other side got its reference by an
+    unsynchronised read), atomics, spawn order (before a `go` statement vs inside the spawned
+    thread; both before the same once-per-object `go` statement = the same invocation), a named
+    channel order -/
 def exempt (a b : Access) : Bool :=
   (a.init && !b.racy) || (b.init && !a.racy) || (a.atomic && b.atomic) ||
-  inter a.pre b.post || inter b.pre a.post || inter a.hb b.hb
+  inter a.pre b.post || inter b.pre a.post || inter a.pre b.pre || inter a.hb b.hb
 
 def compat (facts : List Access) (a b : Access) : Bool :=
   !(isWrite facts a || isWrite facts b) || sameSingle a b || lockCompat a b || exempt a b
